@@ -130,6 +130,18 @@ Theorem C03_conn_requests_expressible :
 Proof. exact conn_requests_expressible_lemma. Qed.
 Print Assumptions C03_conn_requests_expressible.
 
+(* T8. Session level: Session.executeBatch lets a batch through only if its size is at most the generated
+   constant K.BatchSizeMaximum; every batch that gets past that guard and past Conn.executeBatch has a
+   statement count that fits the [short] of the BATCH message (so that hypothesis shorts_ok of T1/T3/T4 is
+   discharged for the count of batches sent through the public API).  Proved with the value constgen reads
+   from session.go: a larger limit breaks this proof. *)
+Theorem C03_session_batch_count_fits :
+  forall version typ entries cl serial dts dtsv payload r,
+    session_execute_batch version typ entries cl serial dts dtsv payload = Some r ->
+    exists ss, r = RBatch typ ss cl serial dts dtsv payload /\ len ss = len entries /\ short_len ss = true.
+Proof. exact session_batch_count_fits_lemma. Qed.
+Print Assumptions C03_session_batch_count_fits.
+
 (* ---- non-vacuity: the hypotheses are satisfiable by non-trivial values (tests, not theorems) ------------------ *)
 Definition ex_comp : bytes -> option bytes := fun x => if len x <=? K.maxFrameSize then Some (9 :: x) else None.
 Definition ex_decomp : bytes -> option bytes := fun z => match z with 9 :: x => Some x | _ => None end.
@@ -158,11 +170,12 @@ Example C03_nonvacuous :
   /\ decode_request ex_decomp ex_frame = Some (mkhdr 4 7 32767 10 (len ex_frame - 9), asked true 0 ex_request)
   /\ api_expressible 4 (mkqi 6 9 true 1700000000000000 [1; 2; 3] 5000 [([107], Some [1; 2])])
                         (Some ([171; 205], [mkqv None [97] true], false)) = true
+  /\ session_execute_batch 4 1 [([100], None)] 1 0 false 0 [] = Some (RBatch 1 [mkbs [] [100] []] 1 0 false 0 [])
   /\ (* premises of T5 *) nonempty (payload_of ex_request) = true
   /\ build_frame None 3 false 0 1 ex_request = Panic PPayloadVersion.
 Proof.
   split; [exact ex_codec_ok|]. split; [unfold stream_ok; change (3 <=? 4) with true; lia|].
   split; [vm_compute; reflexivity|]. split; [vm_compute; reflexivity|]. split; [vm_compute; reflexivity|].
   split; [vm_compute; reflexivity|]. split; [vm_compute; reflexivity|]. split; [vm_compute; reflexivity|].
-  split; [vm_compute; reflexivity|]. split; vm_compute; reflexivity.
+  split; [vm_compute; reflexivity|]. split; [vm_compute; reflexivity|]. split; vm_compute; reflexivity.
 Qed.
